@@ -55,6 +55,9 @@ checks = {
  "C10": ("exploration", "small-scope exhaustive enumeration of records of harness-registered Go struct types covering every field kind, checked with reflect.DeepEqual and an echo through Go methods",
          "Go value fixed first, record text derived from it: 37 single-field cases over 18 field kinds, all (quick: a third of the) ordered pairs of fields, all triples of fields (thorough), 6 sharing patterns; SexpToGoStructs and (togo r) give DeepEqual values with one object per shared record; (_method a EchoSelf:) returns an equivalent record; 11 records with undeclared fields or wrong-kind values are reported as errors",
          "types registered by the harness through the public registry; unset fields may come back as zero values; the time.Time loss on the way back is a recorded finding pinned by the repository's own tests", "§3 C10"),
+ "C20": ("model_checking", "deviation-bounded exploration of map-iteration choice points on a rebuilt package (AST rewrite through go build -overlay routes every range over a map through a chooser), plus re-runs in the same and in a fresh process",
+         "for each of 93 corpus programs the default run (all maps iterated in sorted order, interpreter construction included) records the choice points (30 rewritten range sites); every single deviation (reverse, rotate, swap; all permutations for <=3 keys; thorough: + pairs of reversals) is executed and value, captured stdout and error text must equal the default run's; each program is re-run in the same process and in a fresh process",
+         "1 range site keyed by interface{} (a debug dump) and maps inside third-party modules are not controlled; pointer values and clock readings are scrubbed; single (thorough: double) deviations", "§3 C20"),
 }
 all_ids = ["C%02d" % i for i in range(1, 21)]
 pending = {i: "check not built yet in this tree (see DESIGN.md §7 build order); will be claimed when its machinery lands" for i in all_ids if i not in checks}
